@@ -66,7 +66,9 @@ Outcomes(h, ops, pre, tenvs, venvs) ==
             \* compile and run against the same host value: the environment check cannot fail
             \* (yae.Eval / yae.Debug use a fresh engine: built-ins only)
             LET c == CompileStep(ops, <<>>, s.src, venvs[s.venv].binds) IN
-            IF c.acc = "ood" THEN Out("ood", VNil, <<>>)
+            \* debug mode is for single-line sources: a line break anywhere in the text is reported as an error
+            IF s.op = "debug" /\ \E k \in 1..Len(s.src) : s.src[k] = 10 THEN Out("error", VNil, <<>>)
+            ELSE IF c.acc = "ood" THEN Out("ood", VNil, <<>>)
             ELSE IF c.acc = "no" THEN Out("error", VNil, <<>>)
             ELSE InvokeStep(c, <<>>, venvs[s.venv].binds)
        [] s.op = "hosteval" -> Out("host", VNil, <<>>)        \* judged by Trace_Api!HostWhy
